@@ -403,6 +403,9 @@ def _c16_stages0(tier):
                "TSAN_OPTIONS": "halt_on_error=0:ignore_noninstrumented_modules=1:report_signal_unsafe=0:history_size=4"}
         st.append(S("host-omp-archer", "threads", ["--arg", "omp", "--fam", OMP_FAM, "--reps", "3", "--mindim", "1100"], (10, 1500), (100, 2400), env=env, timeout=900))
         st.append(S("host-omp-archer", "threads", ["--arg", "omp", "--ops", MP, "--reps", "4", "--mindim", "300"], (12, 900), (120, 1600), env=env, timeout=900))
+        # elimination only: every process_rows variant with more than one 512-row chunk, so that a race that the optimiser happens to hide
+        # (a scratch variable shared instead of private) is still seen by the race detector
+        st.append(S("host-omp-archer", "threads", ["--arg", "omp", "--fam", "ech", "--reps", "2", "--mindim", "1100"], (40, 1500), (300, 2200), env=env, timeout=900))
     return st
 PROPS["C16"] = dict(
     level="exploration",
